@@ -28,16 +28,19 @@ Step ==
   /\ CASE e.a = "New"  -> New(e.o, e.method, e.tk) /\ fails' = fails \o HeapClause \o Fail(e.raised = "", "C14.constructor_raised") /\ UNCHANGED results
        [] e.a = "Fit"  -> Fit(e.o, e.s) /\ UNCHANGED results
                           /\ fails' = fails \o HeapClause \o (IF e.raised # "" THEN <<"C14.fit_raised">>
-                                                             ELSE Fail(e.df_fp = e.fresh_fp, "C14.fit_differs_from_fresh_analysis_with_current_settings"))
+                                                             ELSE Fail(e.df_fp = e.fresh_fp, "C14.fit_differs_from_fresh_analysis_with_current_settings")
+                                                               \o Fail(e.attr_ok, "C14.attribute_access_returns_stale_columns_after.Fit"))
        [] e.a = "Recompute" -> Recompute(e.o, e.v) /\ UNCHANGED results
                           /\ fails' = fails \o HeapClause \o (IF e.raised # "" THEN <<"C14.recompute_edges_raised">>
-                                                             ELSE Fail(e.df_fp = e.fresh_fp, "C14.recompute_edges_differs_from_functional_edge_recomputation"))
+                                                             ELSE Fail(e.df_fp = e.fresh_fp, "C14.recompute_edges_differs_from_functional_edge_recomputation")
+                                                               \o Fail(e.reduced_ok, "C14.reduce_thresholds_is_not_every_threshold_lowered_by_r")
+                                                               \o Fail(e.attr_ok, "C14.attribute_access_returns_stale_columns_after.Recompute"))
        [] e.a = "RecomputeRaises" -> RecomputeRaises(e.o) /\ UNCHANGED results
                           /\ fails' = fails \o HeapClause \o Fail(e.raised = e.fresh_raised, "C14.recompute_edges_outcome_differs_from_functional_edge_recomputation")
                                              \o Fail(e.raised = "" \/ e.df_fp = e.before_fp, "EXT.table_changed_by_a_failed_recompute_edges")
                                              \o Fail(e.raised # "", "EXT.recompute_edges_of_an_amplitude_or_unfitted_object_did_not_raise")
        [] e.a = "Load" -> Load(e.o, e.s) /\ UNCHANGED results
-                          /\ fails' = fails \o HeapClause \o Fail(e.raised = "" /\ e.df_fp = e.fresh_fp, "C14.load")
+                          /\ fails' = fails \o HeapClause \o Fail(e.raised = "" /\ e.df_fp = e.fresh_fp, "C14.load") \o Fail(e.attr_ok, "C14.attribute_access_returns_stale_columns_after.Load")
        [] e.a = "Edit" -> EditDict(e.o, e.method, e.v) /\ fails' = fails \o HeapClause /\ UNCHANGED results
        [] e.a = "SetCentre" -> SetCentre(e.o, e.method) /\ fails' = fails \o HeapClause \o Fail(e.raised = "", "C14.attribute_assignment_raised") /\ UNCHANGED results
        [] e.a = "Rebind" -> Rebind(e.o, e.tk) /\ fails' = fails \o HeapClause \o Fail(e.raised = "", "C14.attribute_assignment_raised") /\ UNCHANGED results
@@ -49,7 +52,8 @@ Step ==
                    /\ fails' = fails \o HeapClause
                          \o (IF e.raised # "" THEN <<"C15.call_raised." \o e.f>>
                              ELSE Fail(e.pre = e.post, "C15.argument_modified_by." \o e.f)
-                               \o Fail(\A k \in Seen : results[k][2] = e.result_fp, "C15.repeated_call_returns_a_different_result." \o e.f))
+                               \o Fail(\A k \in Seen : results[k][2] = e.result_fp, "C15.repeated_call_returns_a_different_result." \o e.f)
+                               \o Fail(e.again_fp = -1 \/ e.again_fp = e.result_fp, "C15.result_depends_on_calls_made_in_between." \o e.f))
                    /\ results' = IF e.raised = "" THEN Append(results, <<Key, e.result_fp>>) ELSE results
   /\ l' = l + 1
   /\ UNCHANGED tid
